@@ -499,6 +499,61 @@ func (c *Ctx) lenFactsExcludeD(f *ssa.Function, x ssa.Value, need int64, blk, su
 	return false
 }
 
+// callersExcludeLen: x is a view of a parameter of the unexported function f (a field path, no call in between), f is
+// only called statically from the module, and at every call site the facts about the length of the same path of the
+// argument exclude every length in [0, need).
+func (c *Ctx) callersExcludeLen(f *ssa.Function, x ssa.Value, need int64) bool {
+	if f == nil || f.Object() == nil || f.Object().Exported() || f.Parent() != nil {
+		return false
+	}
+	rooted := false
+	viewOnly := !derives(x, func(v ssa.Value) bool {
+		switch v.(type) {
+		case *ssa.Parameter:
+			rooted = true
+		case *ssa.Call, *ssa.Phi, *ssa.MakeSlice, *ssa.MakeMap, *ssa.Global, *ssa.Lookup, *ssa.Index, *ssa.IndexAddr:
+			return true
+		}
+		return false
+	}, false)
+	if !viewOnly || !rooted {
+		return false
+	}
+	node := c.CG.Nodes[f]
+	if node == nil || len(node.In) == 0 {
+		return false
+	}
+	for _, e := range node.In {
+		cs := e.Site
+		g := e.Caller.Func
+		if cs == nil || cs.Common().StaticCallee() != f || g.Pkg == nil || !strings.HasPrefix(g.Pkg.Pkg.Path(), modPath) {
+			return false
+		}
+		sub := map[*ssa.Parameter]string{}
+		for i, a := range callArgs(cs) {
+			if i < len(f.Params) {
+				sub[f.Params[i]] = org(a)
+			}
+		}
+		want := orgSubst(x, sub)
+		lcs := lenCompares(g, func(v ssa.Value) bool { return org(v) == want })
+		for l := int64(0); l < need; l++ {
+			excluded := false
+			for _, lc := range lcs {
+				for _, val := range []bool{true, false} {
+					if c.condAt(lc.bo, val, cs.Block()) && evalCmp(lc.op, l, lc.k) != val {
+						excluded = true
+					}
+				}
+			}
+			if !excluded {
+				return false
+			}
+		}
+	}
+	return true
+}
+
 // varBelowLen: fact `i < len(x)` (or equivalent) holds at blk.
 func (c *Ctx) varBelowLen(f *ssa.Function, i, x ssa.Value, blk *ssa.BasicBlock, slack int64) bool {
 	for _, b := range f.Blocks {
@@ -753,6 +808,17 @@ func (c *Ctx) dischargeBound(s boundSite) (string, bool) {
 				}
 			}
 		}
+		// (b3) the same two idioms with the length fact established by every caller of an unexported helper
+		if k, ok := constInt(s.idx); ok && k >= 0 && c.callersExcludeLen(s.f, s.x, k+1) {
+			return fmt.Sprintf("constant index %d: every call site of %s establishes len > %d for the argument", k, fname(s.f), k), true
+		}
+		if bo, ok := s.idx.(*ssa.BinOp); ok && bo.Op == token.SUB {
+			if k, ok := constInt(bo.Y); ok && k == 1 {
+				if l, ok := bo.X.(*ssa.Call); ok && calleeName(l) == "builtin:len" && sameLen(l.Call.Args[0], s.x) && c.callersExcludeLen(s.f, s.x, 1) {
+					return "len-1: every call site of " + fname(s.f) + " establishes a non-empty argument", true
+				}
+			}
+		}
 		// (e) variable index under i < len(x)
 		if c.varBelowLen(s.f, s.idx, s.x, blk, 0) {
 			return "index below len of the same value", true
@@ -902,6 +968,44 @@ func ruleC15_3(c *Ctx) {
 // ---------------------------------------------------------------------------
 // R-C15-4
 
+// innerEnvelopeNonNilOnSuccess: every nil-error return of the *Envelope method g lies under a nil test of
+// receiver.envelope that came out non-nil.
+func (c *Ctx) innerEnvelopeNonNilOnSuccess(g *ssa.Function) bool {
+	if g == nil || g.Blocks == nil || g.Signature.Recv() == nil || typeStr(g.Signature.Recv().Type()) != "*in_toto.Envelope" {
+		return false
+	}
+	rets := c.nilErrReturnsOrForwarded(g)
+	if len(rets) == 0 {
+		return false
+	}
+	for _, r := range rets {
+		ok := false
+		for _, b := range g.Blocks {
+			for _, in := range b.Instrs {
+				if u, isU := in.(*ssa.UnOp); isU && u.Op == token.MUL && org(u) == "p0.envelope" && c.nonNilAt(u, r.Block()) {
+					ok = true
+				}
+			}
+		}
+		if !ok {
+			return false
+		}
+	}
+	return true
+}
+
+// nilErrReturnsOrForwarded: the returns of g that may carry a nil error (constant nil, or another call's error handed on).
+func (c *Ctx) nilErrReturnsOrForwarded(g *ssa.Function) []*ssa.Return {
+	ei := errIndex(g)
+	var out []*ssa.Return
+	for _, r := range returnsOf(g) {
+		if ei < 0 || ei >= len(r.Results) || c.mayBeNilErr(r.Results[ei], r.Block(), 0) {
+			out = append(out, r)
+		}
+	}
+	return out
+}
+
 func ruleC15_4(c *Ctx) {
 	const R = "R-C15-4"
 	// inner envelope of Envelope
@@ -915,6 +1019,13 @@ func ruleC15_4(c *Ctx) {
 				for _, in := range b.Instrs {
 					if u, ok := in.(*ssa.UnOp); ok && u.Op == token.MUL && org(u) == "p0.envelope" && c.nonNilAt(u, blk) {
 						return true
+					}
+					// a successful call of a method of the same receiver that succeeds only with a non-nil inner envelope
+					if call, ok := in.(ssa.CallInstruction); ok && hasErrResult(call) {
+						g := call.Common().StaticCallee()
+						if g != nil && g.Signature.Recv() != nil && len(call.Common().Args) > 0 && org(call.Common().Args[0]) == "p0" && c.okCallAt(call, blk) && c.innerEnvelopeNonNilOnSuccess(g) {
+							return true
+						}
 					}
 				}
 			}
